@@ -631,7 +631,12 @@ fn judge(entries: &[Entry], req: &ReqSpec, obs: &Observed) -> Judgement {
 			let sig = format!("admitted-without-match/{}", relation(entries, req, &h, &u));
 			violations.push((
 				sig,
-				"the request reached the inner service although no Host/URI authority matches any allow-list entry even under the lenient (MAY) reading".into(),
+				format!(
+					"the request reached the inner service although no Host/URI authority matches any allow-list entry even under the lenient (MAY) reading: Host={:?} target={:?} allow-list={:?}",
+					req.hosts.iter().map(|b| String::from_utf8_lossy(b).into_owned()).collect::<Vec<_>>(),
+					req.uri,
+					entries.iter().map(|e| e.text.as_str()).collect::<Vec<_>>()
+				),
 			));
 		} else if obligation == Obligation::Band {
 			let lenient_disagree = match (h.parsed(), u.parsed()) {
